@@ -72,6 +72,8 @@ type Chain struct {
 	// validator set as reported by InitChain / EndBlock (cons address -> power)
 	Vals     map[string]int64
 	proposer []byte
+	// double-sign evidence handed to the next BeginBlock
+	PendingEvidence []abci.Evidence
 
 	InBlock bool
 	Header  tmproto.Header
@@ -284,6 +286,8 @@ func (c *Chain) NextBeginBlockRequest() abci.RequestBeginBlock {
 	for _, k := range keys {
 		votes = append(votes, abci.VoteInfo{Validator: abci.Validator{Address: []byte(k), Power: c.Vals[k]}, SignedLastBlock: true})
 	}
+	ev := c.PendingEvidence
+	c.PendingEvidence = nil
 	return abci.RequestBeginBlock{
 		Header: tmproto.Header{
 			ChainID:         ChainID,
@@ -292,8 +296,17 @@ func (c *Chain) NextBeginBlockRequest() abci.RequestBeginBlock {
 			AppHash:         c.AppHash,
 			ProposerAddress: c.proposer,
 		},
-		LastCommitInfo: abci.LastCommitInfo{Votes: votes},
+		LastCommitInfo:      abci.LastCommitInfo{Votes: votes},
+		ByzantineValidators: ev,
 	}
+}
+
+// Equivocate queues double-sign evidence against a validator (by consensus address) for the next block: the
+// evidence module slashes, jails and tombstones it, leaving tokens < delegator shares.
+func (c *Chain) Equivocate(consAddr []byte, power int64) {
+	h := c.Height
+	c.PendingEvidence = append(c.PendingEvidence, abci.Evidence{Type: abci.EvidenceType_DUPLICATE_VOTE,
+		Validator: abci.Validator{Address: consAddr, Power: power}, Height: h, Time: BlockTime(h), TotalVotingPower: power})
 }
 
 func (c *Chain) BeginBlock() (abci.ResponseBeginBlock, *Halt) {
